@@ -392,7 +392,66 @@ func genC12(t *rapid.T) c12Case {
 	return c
 }
 
-func init() { vRegister("C12", "c12.stateful", checkC12) }
+// ---------------------------------------------------------------------------
+// a long gap: a food (and its elements) mentioned on one day and again exactly g days later, with other days in
+// between (g = 2^8, 2^16 and their neighbours: whatever a reporter keeps per name between days must survive any distance)
+
+type c12GapCase struct {
+	Gap int `json:"gap"`
+	Cmd int `json:"cmd"`
+}
+
+var c12GapCmds = [][]string{{"reg", "--no-color"}, {"reg", "--no-color", "--use-old-reg-reporter"}, {"reg", "--no-color", "--internal-template-name", "left-aligned"}, {"print"}, {"csv", "log"}, {"reg", "-s", "x"}}
+
+func checkC12Gap(c c12GapCase, ctx *vCtx) *vFailure {
+	bp := vWriteFile("c12-gap-book.yaml", "first:\n  x: 2\n  z: 1\nother:\n  y: 3\n")
+	var l1 strings.Builder
+	l1.WriteString(vFmtDay(0, "") + ":\n  first: 1\n")
+	for d := 1; d < c.Gap; d++ {
+		l1.WriteString(vFmtDay(d, "") + ":\n  other: 1\n")
+	}
+	l2 := vFmtDay(c.Gap, "") + ":\n  first: 2\n  other: 1\n"
+	cmd := c12GapCmds[c.Cmd%len(c12GapCmds)]
+	run := func(text string) string {
+		lp := vWriteFile("c12-gap-log.yaml", text)
+		r := vRunApp(vInvocation{Args: append([]string{"--today", vToday, "-d", bp, "-l", lp}, cmd...)})
+		ctx.Run(1)
+		if r.Failed {
+			vViolate("C12 gap: %v failed on a valid log: %s", cmd, vTrunc(r.String(), 500))
+		}
+		return r.Stdout
+	}
+	ctx.NonTrivial(true)
+	ctx.Labelf("gap=%d", c.Gap)
+	a, b := run(l1.String()), run(l2)
+	whole := run(l1.String() + l2)
+	if whole != a+b {
+		// show the end, where the appended day is
+		return vFailf("%v: a history of %d days with one more day appended: the report of the whole is not the report of the history followed by the report of that day.\n--- end of the whole:\n%s\n--- report of the appended day alone:\n%s", cmd, c.Gap, vTrunc(whole[vMax(0, len(whole)-600):], 700), vTrunc(b, 700))
+	}
+	return nil
+}
+
+func TestVerifC12Gap(t *testing.T) {
+	gaps := []int{256, 65536}
+	if vThorough() {
+		gaps = []int{255, 256, 257, 4096, 65535, 65536, 65537, 131072}
+	}
+	var space []c12GapCase
+	for _, g := range gaps {
+		for ci := range c12GapCmds {
+			space = append(space, c12GapCase{Gap: g, Cmd: ci})
+		}
+	}
+	vEnum(t, "C12", "c12.gap",
+		"a history of g days (g = 256, 65536; thorough also their neighbours, 4096 and 131072) whose first day logs a food that is logged again only on the appended day g, with another food on every day in between; six per-day reports: the report of the whole is the concatenation of the reports of the history and of the appended day",
+		fmt.Sprintf("%d (gap, command) combinations", len(space)), len(space), func(i int) c12GapCase { return space[i] }, checkC12Gap)
+}
+
+func init() {
+	vRegister("C12", "c12.stateful", checkC12)
+	vRegister("C12", "c12.gap", checkC12Gap)
+}
 
 func TestVerifC12Stateful(t *testing.T) {
 	vRapid(t, "C12", "c12.stateful",
